@@ -13,6 +13,7 @@
  *                                       e = max |Q^H Q - I| entry, max |Q R - A| entry)
  *   ztoyn|ytozn n <M>                -> <op> x= ...
  *   stozn|ztosn|stoyn|ytosn n <M> <z0: n> -> <op> x= ...
+ *   ytozin|ztozin|stozin n <M> <z0: n>    -> <op> x= <zin: n>
  *   add_a <a: 2*2> <b: 2*2>          -> add_a rc=<r> callbacks=<n> category=<c>
  *        (vnacal_new_add_through on a 2x2 T8 calibration with one frequency, `a` and `b`
  *         given: the a/b -> m reduction through the public API)
@@ -134,6 +135,15 @@ int main(void)
 	    else if (!strcmp(op, "stoyn")) vnaconv_stoyn(m, out, z0, n);
 	    else vnaconv_ytosn(m, out, z0, n);
 	    printf("%s x=", op); pmat(out, n * n); printf("\n");
+	    free(m); free(z0); free(out);
+	} else if (!strcmp(op, "ytozin") || !strcmp(op, "ztozin") || !strcmp(op, "stozin")) {
+	    /* <op> n <M: n*n> <z0: n>  -> <op> x= <zin: n>   (input impedances, the other ports terminated in z0) */
+	    int n; if (scanf("%d", &n) != 1) return 2;
+	    cx *m = rmat(n, n), *z0 = rmat(1, n), *out = calloc(n + 1, sizeof(cx));
+	    if (!strcmp(op, "ytozin")) vnaconv_ytozin(m, out, z0, n);
+	    else if (!strcmp(op, "ztozin")) vnaconv_ztozin(m, out, z0, n);
+	    else vnaconv_stozin(m, out, z0, n);
+	    printf("%s x=", op); pmat(out, n); printf("\n");
 	    free(m); free(z0); free(out);
 	} else if (strcmp(op, "add_a") == 0) {
 	    cx *a = rmat(2, 2), *b = rmat(2, 2);
